@@ -73,6 +73,7 @@ type markNode struct {
 	kind  el.NodeType
 	sh    *concShared
 	fail  bool // registry probes: Close error
+	nest  *el.Broker // the node reports to the Broker from Process (a nested Send of another event type)
 }
 
 func (n *markNode) Type() el.NodeType { return n.kind }
@@ -86,6 +87,9 @@ func (n *markNode) Process(ctx context.Context, e *el.Event) (*el.Event, error) 
 	simrt.Yield("node:entry")
 	if p, ok := e.Payload.(*sendPayload); ok {
 		n.sh.addMark(n.label, p.ID)
+		if n.nest != nil {
+			n.nest.Send(context.Background(), "tz", &plainPayload{N: p.ID})
+		}
 	}
 	if n.kind == el.NodeTypeSink {
 		return nil, nil
@@ -490,8 +494,20 @@ func runConc(rc *RunCtx, prop string) {
 	for id, k := range kinds {
 		nodeKinds[id] = k
 	}
+	// some pool nodes call back into the Broker from Process (as the gated filter does): a Send of
+	// type "tz", which has a pipeline of plain nodes that is not part of the history
+	nesting := tp.Choose(3, "nesting-nodes") == 0
+	if nesting {
+		broker.RegisterNode("tzf", &markNode{label: "tzf", kind: el.NodeTypeFormatter, sh: sh})
+		broker.RegisterNode("tzs", &markNode{label: "tzs", kind: el.NodeTypeSink, sh: sh})
+		broker.RegisterPipeline(el.Pipeline{PipelineID: "tz", EventType: "tz", NodeIDs: []el.NodeID{"tzf", "tzs"}})
+	}
 	for _, id := range pool {
-		broker.RegisterNode(el.NodeID(id), &markNode{label: id, kind: kinds[id], sh: sh})
+		mn := &markNode{label: id, kind: kinds[id], sh: sh}
+		if nesting && (id == "n0" || id == "n2") {
+			mn.nest = broker
+		}
+		broker.RegisterNode(el.NodeID(id), mn)
 		init.nodes[id] = id
 	}
 	markerSeq := 0
